@@ -576,6 +576,8 @@ def check_wire(msg, offset, expect=None):
 # ---------------------------------------------------------------- recheck
 def recheck(case):
     m = case["mode"]
+    if m == "mutable-label":
+        return mutable_label_case(case)[0]
     if m == "origin-limit":
         return origin_limit_case(case)[0]
     if m == "text":
@@ -971,7 +973,35 @@ def origin_limit_case(case):
     return probs, "|".join("%s=%s" % (k, v if isinstance(v, str) else "ok") for k, v in sorted(outs.items()))
 
 
+def mutable_label_case(case):
+    """A name built from caller-owned mutable buffers must not keep them (the limits are checked
+    once, at construction): the constructor and from_wire on a bytearray message either refuse
+    or hold plain bytes."""
+    probs = []
+    kind = case["kind"]
+    try:
+        if kind == "constructor":
+            buf = bytearray(b"x" * 10)
+            nm_ = dns.name.Name([buf, b""])
+        else:
+            msg = bytearray(b"\x03abc\x07example\x00")
+            nm_ = dns.name.from_wire(msg, 0)[0]
+    except Exception:
+        return probs, "refused"
+    if not all(type(x) is bytes for x in nm_.labels):
+        probs.append(("C01/Name/holds-mutable-label/" + kind, "labels have types %s" % [type(x).__name__ for x in nm_.labels]))
+        return probs, "kept-mutable"
+    return probs, "copied"
+
+
 def w_origin_limit(task, col):
+    for kind in ("constructor", "from_wire-bytearray"):
+        case = {"mode": "mutable-label", "kind": kind}
+        probs, label = mutable_label_case(case)
+        col.count("evaluations")
+        col.outcome("mutable-label:" + label)
+        for s_, w_ in probs:
+            col.violation(s_, w_, case)
     # relative part: k labels of 62 octets + one filler label; origin: one or two labels
     for nfull in (0, 1, 2, 3):
         for filler in range(1, 63, 5):
